@@ -11,7 +11,9 @@ EXPLANATION = (
     "abstract outcome of the VM's handler for the same tags - same set of result tags, same set of "
     "error kinds; the six comparison predicates accept the same Ordering values; (R2) constants are "
     "inlined as the literal of their folded tag, CONST emits no instruction; (R3) both constant "
-    "passes evaluate with eval_const and convert with CastVariant::cast when the name carries a suffix.")
+    "passes evaluate with eval_const and convert with CastVariant::cast when the name carries a suffix; "
+    "(R4) constant lookup consults the current scope before the global scope at every two-level "
+    "lookup, so the folder and the expression converter resolve a shadowing CONST alike.")
 NOT_DECIDED = ["equality of the folded value with the run-time value (value-level)"]
 
 ERR_NAMES = {"LinterError(NotFiniteNumber)": "NotFiniteNumber"}
@@ -144,3 +146,5 @@ def run(ctx):
     r1_folder_vs_vm(ctx, T)
     r2_inlined_as_literal(ctx, T)
     r3_both_passes(ctx)
+    from . import c13
+    c13.r5_local_before_global(ctx, "C14.R4")
